@@ -728,6 +728,60 @@ func Check(sc Scenario, e *Env, results []Res) (string, string) {
 			return fmt.Sprintf("clients sharing one configuration accepted signed trees that do not lie on one log: %v", what), ""
 		}
 	}
+	// every security report must prove its claim: it carries (verbatim, signatures included) two signed
+	// tree heads that are not heads of one and the same log
+	for _, m := range e.Security {
+		flat := strings.ReplaceAll(m, "\n\t", "\n")
+		var heads []tlog.Tree
+		for rest := flat; ; {
+			i := strings.Index(rest, "go.sum database tree\n")
+			if i < 0 {
+				break
+			}
+			seg := rest[i:]
+			// the note ends after its signature lines
+			end := strings.Index(seg, "\n\n")
+			if end < 0 {
+				break
+			}
+			j := end + 2
+			for strings.HasPrefix(seg[j:], "— ") {
+				nl := strings.Index(seg[j:], "\n")
+				if nl < 0 {
+					j = len(seg)
+					break
+				}
+				j += nl + 1
+			}
+			if t, err := open([]byte(seg[:j])); err == nil {
+				heads = append(heads, t)
+			}
+			rest = seg[len("go.sum database tree\n"):]
+		}
+		proves := false
+		for a := 0; a < len(heads); a++ {
+			for b := a + 1; b < len(heads); b++ {
+				same := false
+				for i := range e.tservers {
+					ha, ea := e.treeHash(i, heads[a].N)
+					hb, eb := e.treeHash(i, heads[b].N)
+					if ea == nil && eb == nil && ha == heads[a].Hash && hb == heads[b].Hash {
+						same = true
+					}
+				}
+				if !same {
+					proves = true
+				}
+			}
+		}
+		if !proves {
+			var ds []string
+			for _, t := range heads {
+				ds = append(ds, fmt.Sprintf("size %d %s", t.N, t.Hash.String()[:8]))
+			}
+			return fmt.Sprintf("a security report does not carry two validly signed heads that contradict each other (heads found in it: %v)", ds), ""
+		}
+	}
 	if nsec > 0 && len(e.Security) == 0 {
 		return "a lookup reported a security error but the callback never ran", ""
 	}
